@@ -709,6 +709,15 @@ class SadEqualsTracked(Monitor):
     """C10 invariant: model SAD == inbound/outbound SAs of the tracked CHILD_SAs, after every event"""
     name = 'sad'
 
+    def __init__(self, at_rest=False):
+        self.at_rest = at_rest        # also judge the state at rest (C10 only)
+        self.at_risk = set()          # SPIs whose hard-expiry notice arrived while the owner's own IKE_SA rekey was outstanding
+
+    def pre(self, sim, ev):
+        if ev.kind == 'expire' and ev.info.get('sa') is not None and ev.info.get('hard'):
+            if ev.info['sa'].state == State.REK_IKE_SA_REQ_SENT:
+                self.at_risk.add(bytes(ev.info['spi']).hex())
+
     def post(self, sim, ev):
         for ep in sim.eps.values():
             if not ep.up:
@@ -726,6 +735,30 @@ class SadEqualsTracked(Monitor):
                 sim.fail(f'tracked-absent:{ev.kind}',
                          f'after {describe(ev)} endpoint {ep.name} tracks CHILD_SAs whose kernel SAs are absent: '
                          f'{sorted(tr - inst)[:4]}')
+
+
+def _sad_end(self, sim):
+    """a kernel-side hard expiry is tolerated as 'tracked but absent' only while the daemon still has to act on the notice: once
+    nothing is in flight and no IKE_SA waits for a response, the CHILD_SA must have been given up as well"""
+    if not self.at_rest or sim.w.inflight or sim.waiting():
+        return
+    for ep in sim.eps.values():
+        if not ep.up:
+            continue
+        left = set(WD.tracked_sad_keys(ep)) - set(ep.kernel.sad.keys())
+        known = {k_ for k_ in left if k_[2] in self.at_risk}
+        if known:
+            # open finding F29 (same root as F25): an event queued on an IKE_SA whose own rekey is outstanding is dropped with it
+            sim.fail('expire-lost-during-ike-rekey', f'a hard-expiry notice that arrived while endpoint {ep.name} was rekeying the '
+                                                     f'IKE_SA was queued on the IKE_SA being replaced and lost with it: CHILD_SA '
+                                                     f'{sorted(known)[:2]} stays tracked although its kernel SA is gone')
+        left -= known
+        if left:
+            sim.fail('tracked-absent:at-rest', f'at rest endpoint {ep.name} still tracks CHILD_SAs whose kernel SAs are gone (hard '
+                                               f'expiry notices it was given): {sorted(left)[:3]}')
+
+
+SadEqualsTracked.end = _sad_end
 
 
 class TableExact(Monitor):
